@@ -61,6 +61,11 @@ pub enum TOp {
     /// `cmp`/`partial_cmp`/`<`/`<=`/`max` of two edges and `sort()` of a node's edges
     EdgeCmp { u: usize, i: usize, v: usize, j: usize },
     NodeCmp { u: usize, v: usize },
+    /// The crate's own Dijkstra pattern: node values with an interior-mutable distance, a
+    /// priority-first search whose `for_each` closure relaxes the far end of every edge it is
+    /// handed - i.e. changes the value of nodes that may sit in the search's queue. Logged: the
+    /// edges the closure saw, in order, the distances afterwards, and the search's result.
+    Relax { root: usize, max: bool, target: Option<usize> },
     /// `for e in &node`
     IterInto { u: usize },
     /// the whole `Path` API on the result of a path / cycle search
@@ -428,6 +433,38 @@ fn exec<F: Flavour>(w: &mut World<F>, extras: &mut Vec<F::Node>, op: &TOp) -> Ob
             });
             Obs::Edges(v)
         }
+        TOp::Relax { root, max, target } => {
+            let far = if *max { -1_000_000 } else { 1_000_000 };
+            for x in &w.nodes {
+                F::set_eff(x, far);
+            }
+            F::set_eff(&w.nodes[*root], 0);
+            let spec = crate::model::SearchSpec {
+                kind: if *max { crate::model::SKind::PfsMax } else { crate::model::SKind::PfsMin },
+                mode: if target.is_some() { crate::model::SMode::Path } else { crate::model::SMode::Find },
+                target: *target,
+                transpose: false,
+                closure: crate::model::Closure::ForEach,
+                mask: 0,
+                query: false,
+            };
+            let mut seen: Vec<(usize, usize, u64)> = Vec::new();
+            let out = F::search(&w.nodes[*root], &spec, &mut |a, b, e| {
+                let step = (e.0 % 5) as i64 + 1;
+                let nd = if *max { F::eff(a) - step } else { F::eff(a) + step };
+                if (*max && nd > F::eff(b)) || (!*max && nd < F::eff(b)) {
+                    F::set_eff(b, nd);
+                }
+                seen.push((F::key(a), F::key(b), e.0));
+                true
+            });
+            let dist: Vec<i64> = w.nodes.iter().map(|x| F::eff(x)).collect();
+            // back to the values every other call expects
+            for x in &w.nodes {
+                F::set_eff(x, F::prio(x) as i64);
+            }
+            Obs::Text(format!("saw {seen:?} dist {dist:?} result {:?}", crate::world::search_out_obs::<F>(out)))
+        }
         TOp::NodeCmp { u, v } => {
             let a = &w.nodes[*u];
             let b = &w.nodes[*v];
@@ -538,6 +575,7 @@ impl Engine for Twin {
                 92..=93 => TOp::EdgeEq { u: rng.below(n), i: rng.below(3), v: rng.below(n), j: rng.below(3) },
                 94..=95 => TOp::EdgeCmp { u: rng.below(n), i: rng.below(3), v: rng.below(n), j: rng.below(3) },
                 96 if rng.chance(1, 20) => TOp::MacroBuild,
+                96 if rng.chance(1, 2) => TOp::Relax { root: rng.below(n), max: rng.chance(1, 3), target: if rng.coin() { Some(rng.below(n)) } else { None } },
                 96 => {
                     if rng.coin() {
                         TOp::EdgeReverse { u: rng.below(n), i: rng.below(3) }
@@ -689,6 +727,7 @@ impl Engine for Twin {
                     TOp::EdgeEq { u, v, .. } | TOp::EdgeCmp { u, v, .. } | TOp::NodeCmp { u, v } => *u == k || *v == k,
                     TOp::EdgeReverse { u, .. } | TOp::IterInto { u } => *u == k,
                     TOp::PathInfo { root, spec } => *root == k || spec.target == Some(k),
+                    TOp::Relax { root, target, .. } => *root == k || *target == Some(k),
                     TOp::Loop { u, spec, plan, .. } => {
                         *u == k || spec.as_ref().map(|s| s.target == Some(k)).unwrap_or(false) || plan.iter().any(|(_, op)| gen::remap_op(op, k).is_none())
                     }
